@@ -75,9 +75,12 @@ func (r *c12chunkReader) Read(p []byte) (int, error) {
 	return n, nil
 }
 
-var c12bulkDeliveries = []string{"whole", "one-byte-reads", "4096-byte-reads", "1000-byte-reads"}
+var c12bulkDeliveries = []string{"whole", "one-byte-reads", "4096-byte-reads", "1000-byte-reads", "whole-no-final-newline"}
 
 func c12bulkReader(text, how string) io.Reader {
+	if how == "whole-no-final-newline" {
+		text = strings.TrimSuffix(strings.TrimSuffix(text, "\n"), "\r") // the last rule is not terminated
+	}
 	switch how {
 	case "one-byte-reads":
 		return iotest.OneByteReader(strings.NewReader(text))
